@@ -58,10 +58,13 @@ func d1Rests() []string {
 	keys := []string{"tdb:j1", "tdb:j2", "tdb:c1", "tdb:r1", "tdb:t1", "tdb:sec", "tdb:e0", "tdb:nx", "tdb:", "nodb:x", "tdb", "tdb:d/x", "tdb:../x"}
 	queries := []string{"query tdb:", "query tdb:j", "query tdb: where a > 0", "query tdb:zz", "query nodb:", "query tdb: where", "tdb:", "query",
 		"query tdb: limit 1", "query tdb: where a > x", "query tdb:../", "query tdb: orderby a", "query tdb: where s sameas x"}
+	queries = append(queries, notQueries...)
 	wkeys := []string{"tdb:j1", "tdb:c1", "tdb:r1", "tdb:t1", "tdb:sec", "tdb:e0", "tdb:nx", "nodb:x", "", "tdb:", "tdb:d/x", "tdb:../x"}
 	payloads := []string{"", "J", "J{}", `J{"a":1}`, `{"a":2}`, "Jnot-json", cborA1, `{"a":"str"}`, "J[1]", `J{"a":0}`,
 		`J{"_meta":1}`, `{"b.c":1}`, `J"s"`, "\x01raw", `{"A":9}`, `{"S":"v"}`, `{"S":null}`, `{"a":null}`, `{"L":[1]}`, `{"F":1}`, `{"B":true}`,
-		`{"Mutex":{}}`, `{"Base":1}`, `{}`, `[1]`, `{"a":{"b":1}}`}
+		`{"Mutex":{}}`, `{"Base":1}`, `{}`, `[1]`, `{"a":{"b":1}}`,
+		// unexported and promoted unexported fields of the typed record, assignable and not
+		`{"dbKey":"other"}`, `{"dbName":"x"}`, `{"meta":{}}`, `{"u":"v"}`, `{"u":1}`, `{"n":2}`}
 	rests := []string{""}
 	rests = append(rests, keys...)
 	rests = append(rests, queries...)
@@ -71,6 +74,18 @@ func d1Rests() []string {
 		}
 	}
 	return rests
+}
+
+// where-clauses with a prefix "not" followed by further plain conditions (and the documented spellings)
+var notQueries = []string{
+	"query tdb:n/ where not a exists and b exists",
+	"query tdb:n/ where not a exists or b exists",
+	"query tdb:n/ where a exists and not b exists and c exists",
+	"query tdb:n/ where not a exists and not b exists",
+	"query tdb:n/ where a not exists and b exists",
+	"query tdb:n/ where not ( a exists ) and b exists",
+	"query tdb:n/ where not ( a exists or b exists ) and c exists",
+	"query tdb:n/ where b exists and not a exists",
 }
 
 func seqAlphabet(thorough bool) []tmpl {
@@ -99,6 +114,11 @@ func seqAlphabet(thorough bool) []tmpl {
 			{"insert", `tdb:j1|J{"a":2}`}, {"insert", "tdb:j1|"}, {"insert", `tdb:j1|{"s":"y","z":true}`}, {"insert", `tdb:sec|{"a":1}`}, {"insert", `tdb:nx|{}`}, {"insert", `tdb:j1|{"a":null}`},
 			{"delete", "tdb:j2"}, {"delete", "tdb:t1"}, {"delete", "tdb:e0"}, {"delete", "tdb:zq"}, {"delete", "nodb:x"}, {"delete", ""},
 			{"raw", ""}, {"raw", "%s|"}, {"raw", "%s|cancel|x"}, {"raw", "%s|insert|tdb:j1"}, {"raw", "%s||"},
+			{"query", notQueries[0]}, {"query", notQueries[2]}, {"query", notQueries[1]},
+			{"sub", notQueries[0]}, {"sub", notQueries[1]}, {"sub", notQueries[2]},
+			{"qsub", notQueries[0]}, {"qsub", notQueries[2]},
+			{"create", `tdb:n/8|J{"b":1,"z":1}`}, {"update", `tdb:n/1|J{"z":2}`}, {"update", `tdb:n/4|J{"a":1,"c":1}`}, {"delete", "tdb:n/2"}, {"delete", "tdb:n/0"},
+			{"insert", `tdb:t1|{"dbKey":"other"}`}, {"insert", `tdb:t1|{"u":"v"}`}, {"insert", `tdb:t1|{"meta":{}}`},
 		}...)
 	}
 	return a
@@ -117,6 +137,7 @@ func coreAlphabet() []tmpl {
 		{"insert", `tdb:j1|{"a":2}`}, {"insert", `tdb:nx|{"n":1}`}, {"insert", `tdb:j1|{"a":0}`},
 		{"delete", "tdb:j1"}, {"delete", "tdb:nx"}, {"delete", "tdb:c1"},
 		{"raw", "%s|get"}, {"raw", "%s|bogus|x"},
+		{"sub", notQueries[0]}, {"create", `tdb:n/8|J{"b":1,"z":1}`}, {"delete", "tdb:n/2"},
 	}
 }
 
@@ -738,6 +759,7 @@ func run(c *vlib.Ctx) {
 	c.Assume("the interleaving clause (concurrent requests, cancels racing queries, writes racing subscriptions) is left to engine S; here every message is run to its terminal reply before the next is sent")
 	c.Assume("scenario families: a connection that stalls on the first ok reply of a query/qsub while two other connections write (and, in one variant, for 1.5 s of real time so that the storage send timeout fires), and a stored record that does not parse (not on hashmap); there every ok/upd/new reply must carry content the record had between the start of the operation and the reply")
 	c.Assume("on storages that hand out the stored object itself (hashmap) a record deleted while it waits in the iterator buffer is delivered as ok with no content and _meta.Deleted set; accepted as the record's state at reply time")
+	c.Assume("result sets are compared with the documented query semantics only for where-clauses over '<field> exists' terms with and/or/not (prefix not negates the next term only) on the records tdb:n/0..7, which hold every combination of the fields a, b, c; for other query texts only the reply protocol is checked")
 	c.Assume("backends: hashmap, bbolt, fstree, badger (sinkhole and injected storages are not exercised)")
 
 	jobs, counts := buildJobs(c)
